@@ -246,6 +246,25 @@ def log_file_round_trip(sx):
                      lambda: f"{len(snaps)} snapshots, {len(snaps[0].bytes) if snaps else 0} bytes")
             if snaps:
                 sx.check(snaps[0].config_version == 61 and snaps[0].packtype == "inYT", "dat.log-file-header")
+        # one log holding several snapshots, taken straight after one another or with other log lines in between
+        between = [[], ["2020-12-08 19:53:29,000 geckolib.driver.udp_socket DEBUG Sending ping"],
+                   [PREFIX + "some other shell output"]]
+        for bi, extra in enumerate(between):
+            path = os.path.join(d, f"multi{bi}.txt")
+            with open(path, "w") as f:
+                for i, blk in enumerate(blocks[:3]):
+                    f.write(PREFIX + f"Snapshot (capture {i})\n")
+                    for ln in ("intouch version EN 88 v15.0", "intouch version CO 89 v11.0", "Spa pack inYT 375 v6.0",
+                               f"Config version 6{i}", f"Log version 5{i}"):
+                        f.write(PREFIX + ln + "\n")
+                    f.write(PREFIX + str([hex(x) for x in blk]) + "\n")
+                    for ln in extra:
+                        f.write(ln + "\n")
+            snaps = GeckoSnapshot.parse_log_file(path)
+            got = [(s_.name, s_.config_version, s_.log_version, s_.bytes) for s_ in snaps if s_.name and s_.name.startswith("capture")]
+            exp = [(f"capture {i}", 60 + i, 50 + i, blk) for i, blk in enumerate(blocks[:3])]
+            sx.check(got == exp, "dat.log-file-with-several-snapshots",
+                     lambda: f"variant {bi}: {[g[:3] for g in got]}")
 
 
 def same_simulator(sx):
